@@ -81,7 +81,7 @@ def run(ctx):
         (("u64", "ipc"), ("slice", "local"), ("slice", "ipc"), ("u64", "local"))
     trace, jobs = ps.roundtrip(ctx, PID, TARGETS, tail, NEED_EVENTS,
                                nsim=10 if quick else 120, depth=40 if quick else 60,
-                               ngen=12, steps=140 if quick else 80, variants=variants)
+                               ngen=12, steps=140 if quick else 80, variants=variants, scripted=ps.amplifier_jobs(variants))
     if not quick:
         ps.selftest(ctx, PID, trace, lambda r: r.get("a") == "probe" and r.get("cnt", 0) > 0,
                     lambda r: r.update(cnt=r["cnt"] - 1, cs=r["cs"][:-1]), "probe_count_changed")
